@@ -20,7 +20,8 @@ RULE = (
     "compiler spawn, linker spawn, marker creation, dlopen) or a waiting process is killed, each followed by a generated sequence of "
     "1-3 later requests, sequential or concurrent. Oracles: (a)/(b) the request raises, the lock file is gone and <module>.c.failed "
     "exists, logging.getLogger().handlers and sys.stdout/stderr are the objects found before the call, the repeated request "
-    "compiles afresh without waiting (or, for a deterministic rejection, raises the same error immediately, never TimeoutError); "
+    "compiles afresh without waiting (or, for a deterministic rejection, raises the same error immediately, never TimeoutError) and the "
+    "requests after that successful rebuild are served from the cache; "
     "(c) every later request either returns a kernel computing the reference tensor or raises TimeoutError within the poll-counted "
     "timeout - never a wrong kernel, a loader error from a partial module, or a hang. Non-trivial = the fault lands after the lock "
     "was created; distinct by (fault kind, crash point, follow-up shape)."
@@ -78,7 +79,7 @@ def evaluate(case, wd):
 
     if kind in ("codegen-inject", "codegen-reject"):
         if kind == "codegen-inject":
-            reqs = [{"form": case["form"], "inject": "codegen", "timeout": 3}, {"form": case["form"], "timeout": 3}]
+            reqs = [{"form": case["form"], "inject": "codegen", "timeout": 3}, {"form": case["form"], "timeout": 3}, {"form": case["form"], "timeout": 3}]
         else:
             reqs = [{"form": "bad_sumfact", "options": {"sum_factorization": True}, "timeout": 3}] * 2
         out, err = sched.run_plain({"cache": cache, "requests": reqs}, d, "seq")
@@ -91,6 +92,9 @@ def evaluate(case, wd):
         if kind == "codegen-inject":
             if r2["status"] != "ok" or not r2["compiled"] or not r2["correct"]:
                 return viol("next-request", f"after a failed code generation the same request should build afresh; got {r2}")
+            r3 = out[2]
+            if r3["status"] != "ok" or not r3["correct"]:
+                return viol("request-after-rebuild", f"the failure keeps poisoning the cache entry: the request after the successful rebuild got {r3}")
         else:
             if r2["status"] != "exc" or r2["exc"] != "RuntimeError":
                 return viol("next-request", f"the repeated (deterministically rejected) request should raise the same error at once; got {r2}")
@@ -114,6 +118,14 @@ def evaluate(case, wd):
         r2 = out2[0]
         if r2["status"] != "ok" or not r2["compiled"] or not r2["correct"]:
             return viol("next-request", f"after a transient {'compiler' if kind == 'cc-fail' else 'linker'} failure the next request should build afresh; got {r2}")
+        # ... and the rebuilt module must then be served like any cached module (same process again, and a fresh process)
+        out3, err = sched.run_plain({"cache": cache, "requests": [req, req]}, d, "third", extra_env=env)
+        if out3 is None:
+            return Outcome("harness-error", case_id=h, classes=classes, what=err)
+        for r3 in out3:
+            if r3["status"] != "ok" or not r3["correct"] or r3["compiled"]:
+                return viol("request-after-rebuild", f"the failure keeps poisoning the cache entry: a request after the successful rebuild got {r3} "
+                            f"(expected the cached module, no compilation)")
         return Outcome("ok", case_id=h, nontrivial=True, classes=classes, sample={"case": case, "first": out[0], "second": r2})
 
     # kill scenarios
